@@ -2,3 +2,4 @@ import GtirbProofs.Props.C15
 import GtirbProofs.Props.C07
 import GtirbProofs.Props.C08
 import GtirbProofs.Tables
+import GtirbProofs.Props.C11
